@@ -386,6 +386,15 @@ func dialogues(sc *Scn, tier string, yield func(*Dialogue) bool) {
 						auths = append(auths, Dialogue{Auth: true, AVer: aver, User: u, Pass: p})
 					}
 				}
+				// the bytes of a configured pair split between the two fields at every other place
+				for u, p := range sc.Creds {
+					w := u + p
+					for k := 0; k <= len(w) && len(w) > 2; k++ {
+						if k != len(u) {
+							auths = append(auths, Dialogue{Auth: true, AVer: aver, User: w[:k], Pass: w[k:]})
+						}
+					}
+				}
 			}
 			for _, a := range auths {
 				if gver == 4 && (len(ms) > 1 || a.Auth) {
@@ -441,7 +450,7 @@ func uniq(a []string) []string {
 
 func scenarios(tier string, yield func(any) bool) {
 	cmdSets := [][]string{nil, {"CONNECT"}, {"ASSOCIATE"}, {"BIND"}, {"CONNECT", "ASSOCIATE"}, {"CONNECT", "BIND"}, {"ASSOCIATE", "BIND"}, {"CONNECT", "ASSOCIATE", "BIND"}}
-	creds := []map[string]string{nil, {"u": "p"}, {"u": "p", "v": "q"}, {"": "x"}, {"u": ""}}
+	creds := []map[string]string{nil, {"u": "p"}, {"u": "p", "v": "q"}, {"": "x"}, {"u": ""}, {"al": "ice"}}
 	for _, cs := range cmdSets {
 		for _, cr := range creds {
 			if !yield(&Scn{Commands: cs, Creds: cr}) {
